@@ -43,6 +43,7 @@ type encWalker struct {
 	// closure for map entries
 	closures map[types.Object]*ast.FuncLit
 	lenOf    map[types.Object]string // scratch locals holding len(S): local -> term of S
+	marks    map[types.Object]func() (Poly, bool) // locals holding an earlier cursor value -> bytes written since
 }
 
 func (w *encWalker) isIdent(x ast.Expr, o types.Object) bool {
@@ -110,6 +111,15 @@ func (w *encWalker) polyOf(x ast.Expr, since func() (Poly, bool)) (Poly, error) 
 					}
 				}
 			}
+			if w.isIdent(t.Y, w.iVar) {
+				if id, ok := ast.Unparen(t.X).(*ast.Ident); ok {
+					if m := w.marks[w.e.info.ObjectOf(id)]; m != nil {
+						if p, ok := m(); ok {
+							return p, nil
+						}
+					}
+				}
+			}
 		}
 	case *ast.CallExpr:
 		if b, ok := core.CalleeObj(w.e.info, t).(*types.Builtin); ok && b.Name() == "len" {
@@ -124,9 +134,17 @@ func (w *encWalker) polyOf(x ast.Expr, since func() (Poly, bool)) (Poly, error) 
 }
 
 // out is a wire-order sentence built by prepending (the buffer is back-filled).
-type wout struct{ ws []W }
+type wout struct {
+	ws      []W
+	noMerge bool // the next element starts a counted region: it is not merged into the one before
+}
 
 func (o *wout) prepend(w W) {
+	if o.noMerge {
+		o.noMerge = false
+		o.ws = append([]W{w}, o.ws...)
+		return
+	}
 	// merge constant tag bytes
 	if t, ok := w.(WTag); ok && len(o.ws) > 0 {
 		if t2, ok := o.ws[0].(WTag); ok {
@@ -386,13 +404,38 @@ func (w *encWalker) stmts(list []ast.Stmt, out *wout, baseMark func() (Poly, boo
 				if len(t.Lhs) == 1 && len(t.Rhs) == 1 {
 					id, _ := t.Lhs[0].(*ast.Ident)
 					if id != nil {
-						// baseI := i
+						// end := i — remembers the cursor; `end - i` later is the number of bytes written in between
 						if w.isIdent(t.Rhs[0], w.iVar) {
-							return und("cursor copy %s outside a map-entry closure", id.Name)
+							if t.Tok != token.DEFINE {
+								return und("cursor copy %s into an existing variable", id.Name)
+							}
+							n0 := len(out.ws)
+							out.noMerge = true // bytes written from here on are counted on their own
+							if w.marks == nil {
+								w.marks = map[types.Object]func() (Poly, bool){}
+							}
+							o := out
+							w.marks[info.ObjectOf(id)] = func() (Poly, bool) {
+								if len(o.ws) < n0 {
+									return nil, false
+								}
+								return sizeOf(o.ws[:len(o.ws)-n0], false), true
+							}
+							continue
 						}
 						if fl, ok := t.Rhs[0].(*ast.FuncLit); ok {
 							w.closures[info.ObjectOf(id)] = fl
 							continue
+						}
+						// pksize := runtime.SovPacked(x.F): a summing helper of the runtime package
+						if call, ok := ast.Unparen(t.Rhs[0]).(*ast.CallExpr); ok && basicKind(info.TypeOf(t.Rhs[0])) == types.Int {
+							if p, is, err := helperSum(info, call, w.e.term); is {
+								if err != nil {
+									return err
+								}
+								w.polys[info.ObjectOf(id)] = p
+								continue
+							}
 						}
 						v, err := w.e.term(t.Rhs[0])
 						if err != nil {
